@@ -1,4 +1,4 @@
-(* C09 model (code as of f5b533f): tx.unroll and tx.sequential_unroll, written through the API model (add, add_subcircuit,
+(* C09 model (code as of 48b5241): tx.unroll and tx.sequential_unroll, written through the API model (add, add_subcircuit,
    set_type, connect, set_output, remove) in source order, and `run`, the iterated-`eval` semantics of the
    sequential machine that the property compares with.  Definitions only.
 
@@ -85,9 +85,10 @@ Definition seq_stripped (C : Circuit) (d q : string) (ign : list string) (remove
       if negb (forallb (λ p, bool_decide (bb_in p.2 = bb_in bb) && bool_decide (bb_out p.2 = bb_out bb)) (map_to_list (c_bbs C))) then BadOrder else
       let insts := elements (dom (c_bbs C)) in
       if negb (bool_decide (d ∈ bb_in bb)) then Raise ValueError else
-      let g1 := remove_g (c_g CS) (p ← elements (bb_in bb ∖ {[d]}); (λ b, pre b p) <$> insts) in
+      (* ignored pins are already gone; a node that merely carries the name <inst>_<pin> stays (fix 48b5241, C09-F4) *)
+      let g1 := remove_g (c_g CS) (p ← elements (bb_in bb ∖ {[d]} ∖ list_to_set ign); (λ b, pre b p) <$> insts) in
       if negb (bool_decide (q ∈ bb_out bb)) then Raise ValueError else
-      let g2 := remove_g g1 (p ← elements (bb_out bb ∖ {[q]}); (λ b, pre b p) <$> insts) in
+      let g2 := remove_g g1 (p ← elements (bb_out bb ∖ {[q]} ∖ list_to_set ign); (λ b, pre b p) <$> insts) in
       let g3 := if remove_unloaded then remove_unloaded_inputs g2 (list_to_set ((λ b, pre b q) <$> insts)) else g2 in
       Ok (with_g CS g3, (λ b, (pre b d, pre b q)) <$> insts)
   end).
@@ -199,23 +200,23 @@ Fixpoint is_runF (c : circuit) (sio : list (string * string)) (st : val) (ins : 
   end.
 
 (* ---- guards of the step from the stripped circuit to the flop circuit (Proofs/FlopLink.v); all decidable ----
-   flop_names_ok: instance and pin names are dot-free, the flattened names <inst>_<pin> are unambiguous and are not node names of
-   the circuit (sequential_unroll deletes pins BY THAT NAME, also for ignored pins), every bb_input / bb_output typed node is a pin
-   of a registered instance.  flop_wiring_ok: the only blackbox pins that are read by a node are Q pins (bb_input pins never have
+   flop_names_ok: instance and pin names are dot-free, the flattened names <inst>_<pin> are unambiguous and, for pins that are not
+   ignored, are not node names of the circuit (sequential_unroll deletes those pins BY THAT NAME; a net named after an IGNORED pin is
+   allowed since fix 48b5241), every bb_input / bb_output typed node is a pin of a registered instance.  flop_wiring_ok: the only blackbox pins that are read by a node are Q pins (bb_input pins never have
    fan-out in a circuit built through the API; a loaded non-Q output pin leaves an undriven buffer behind, see docs/C09.md). *)
 Definition bb_pinset (bb : bbdef) : gset string := bb_in bb ∪ bb_out bb.
 Definition all_pins (C : Circuit) : gset string :=
   list_to_set (ibb ← map_to_list (c_bbs C); (λ p, pin ibb.1 p) <$> elements (bb_pinset ibb.2)).
 Definition q_pins (C : Circuit) (q : string) : gset string := list_to_set ((λ b, pin b q) <$> elements (dom (c_bbs C))).
-Definition flop_names_ok (C : Circuit) : Prop :=
+Definition flop_names_ok (C : Circuit) (ign : list string) : Prop :=
   map_Forall (λ b bb, str_has_dot b = false ∧
-    set_Forall (λ p, str_has_dot p = false ∧ pre b p ∉ dom (c_g C)) (bb_pinset bb) ∧
+    set_Forall (λ p, str_has_dot p = false ∧ (p ∉ ign → pre b p ∉ dom (c_g C))) (bb_pinset bb) ∧
     map_Forall (λ b' bb', set_Forall (λ p, set_Forall (λ p', pre b p = pre b' p' → b = b' ∧ p = p') (bb_pinset bb')) (bb_pinset bb)) (c_bbs C))
   (c_bbs C) ∧
   set_Forall (λ n, n ∈ all_pins C) (bb_pins (c_g C)).
 Definition flop_wiring_ok (C : Circuit) (q : string) : Prop :=
   map_Forall (λ _ i, set_Forall (λ f, f ∈ bb_pins (c_g C) → f ∈ q_pins C q) (n_fi i)) (c_g C).
-Global Instance flop_names_ok_dec C : Decision (flop_names_ok C). Proof. unfold flop_names_ok. apply _. Defined.
+Global Instance flop_names_ok_dec C ign : Decision (flop_names_ok C ign). Proof. unfold flop_names_ok. apply _. Defined.
 Global Instance flop_wiring_ok_dec C q : Decision (flop_wiring_ok C q). Proof. unfold flop_wiring_ok. apply _. Defined.
 
 (* initial value of flop b: None = free (the step-0 Q node stays an input), Some t = the step-0 Q node gets type t ('0' / '1' / 'x').
